@@ -236,7 +236,7 @@ def run(prog, rep, tier):
     entries = [(U + "is_dag", "A"), (U + "topological_ordering", "A"),
                ("sempler.lganm.LGANM.__init__", "W"), ("sempler.anm.ANM.__init__", "A"),
                ("sempler.semi.BayesianNetwork.__init__", "graph"), ("sempler.semi.DRFNet.__init__", "graph")]
-    P, objs = pattern_entries(prog, rep, entries)
+    P, objs = pattern_entries(prog, rep, entries, any_graph=True)       # what is tested for acyclicity may be any weighted graph
     for q, attr in (("sempler.anm.ANM.__init__", "ordering"), ("sempler.semi.BayesianNetwork.__init__", "_ordering")):
         obj = objs.get(q)
         if obj is None:
